@@ -134,19 +134,19 @@ def check_case(case):
                         mode, M.fmt_kw(kw), n.f, "; ".join(n.problems))
                 elif n.instant is not None and abs(n.instant - ip) > tol:
                     fail = ("instant: mode %s %s re-expressed at %r -> %s, off "
-                            "by %s s" % (mode, M.fmt_kw(kw), dest, q,
+                            "by %s s" % (mode, M.fmt_kw(kw), dest, M.sp(q),
                                          float(n.instant - ip)))
                 elif n.rep != rep:
                     fail = "representation: %s -> %s" % (rep, n.rep)
                 elif exactish:
                     if not (q == p and p == q):
                         fail = "equal: mode %s %s != its re-expression %s" % (
-                            mode, M.fmt_kw(kw), q)
+                            mode, M.fmt_kw(kw), M.sp(q))
                     elif hash(q) != hash(p):
                         fail = "hash: mode %s %s and %s hash differently" % (
-                            mode, M.fmt_kw(kw), q)
+                            mode, M.fmt_kw(kw), M.sp(q))
                     elif M.dur_len(q - p) != 0 or M.dur_len(p - q) != 0:
-                        fail = "zero_difference: %s - %s = %s" % (q, p, q - p)
+                        fail = "zero_difference: %s - %s = %s" % (M.sp(q), M.sp(p), q - p)
                 if fail is None and n.dn is not None:
                     nontrivial = (n.dn != M.kw_dn(cm, kw) or dest[1] != 0 or
                                   abs(dest[0]) >= 24)
